@@ -40,6 +40,30 @@ PROPS = {
         "note": "Trusted: as C01.",
         "assumptions": ["distinct document ids", "no FNV-64 collision among the values used"],
     },
+    "C04": {
+        "level": "proof",
+        "design_ref": "§6 C04",
+        "technique": "Coq proof at conjunction level (scan result = satisfied conjunction ids, NoDup) plus id round trip; recording ResultCollector on both posting-list indexes compared as a multiset with model and specification inside Coq",
+        "text": "the scan theorems return the list of reported conjunction ids: exactly the satisfied ones, without duplicates, for all inputs; C11's round trip gives the (doc, position, size) a collector decodes. A recording collector on the real indexes is compared (multiset of (doc, Index, Size)) with the model's calls and with the specification's satisfied conjunctions.",
+        "note": "Trusted: as C01. Roaring raw results are checked by C03/C15's cases.",
+        "assumptions": ["distinct document ids", "no FNV-64 collision among the values used"],
+    },
+    "C03": {
+        "level": "proof",
+        "design_ref": "§6 C03",
+        "technique": "Coq proof that the scanner's OR-first/AND-rest fold equals the intersection of the field results for every field order; executable model of roaring builder/containers/scanner and DNF specification compared with the real index inside Coq",
+        "text": "scanner fold = intersection for every iteration order is a Coq theorem; the executable model (builder wildcard rule, containers, scanner) and the DNF specification are compared with the real builder/scanner on generated document sets over 1..5 configured fields.",
+        "note": "Trusted: Coq kernel; roaring64 bitmaps as finite sets; hand-written model Model/Roaring.v tied to the code by the correspondence run. Known finding: zero configured fields (F14).",
+        "assumptions": ["distinct document ids", "at least one configured field", "no FNV-64 collision among the values used"],
+    },
+    "C15": {
+        "level": "proof",
+        "design_ref": "§6 C15",
+        "technique": "Coq proof of the hint law (hinted = hints intersected with every field result, any order); executable scanner model compared with real scanners on operation sequences (WithHint/Retrieve/RetrieveDocs/Reset/GetRawResult) inside Coq",
+        "text": "hinted result = hint set intersected with the unhinted per-field results for every field order is a Coq theorem; operation sequences over 1..4 scanners sharing an index and the bitmap pool are run on the real code and compared with the model and with the specification (fresh answer, restricted answer, raw result).",
+        "note": "Trusted: as C03; sync.Pool behaviour is exercised, not modelled, here (see C10).",
+        "assumptions": ["scanner states after a failed retrieval are only compared after Reset (they depend on Go's map iteration order)"],
+    },
 }
 
 # properties not claimed (reason); empty when everything is claimed
